@@ -77,6 +77,11 @@ impl<'a> RedefinitionChecker<'a> {
                 Entities::Enum(enum_def) => {
                     self.check_if_redefined(enum_def, &mut seen_definitions);
                     self.check_contents_for_redefinitions(enum_def.contents());
+
+                    // The fields of an enumerator share a scope, just like the fields of a struct.
+                    for enumerator in enum_def.enumerators() {
+                        self.check_contents_for_redefinitions(enumerator.fields());
+                    }
                 }
                 Entities::CustomType(custom_type) => {
                     self.check_if_redefined(custom_type, &mut seen_definitions);
